@@ -8,7 +8,7 @@ from vk import refmodel as rm
 ID = 'C13'
 LEVEL = 'exploration'
 RULE = ('Hypothesis draws cors_allowed_origins {None, *, string, list, predicate, []} x '
-        'cors_credentials x Host / scheme / X-Forwarded-Proto / X-Forwarded-Host (single values and '
+        'cors_credentials x Host (also no Host header at all) / scheme / X-Forwarded-Proto / X-Forwarded-Host (single values and '
         'comma lists) x Origin {absent, empty, same-origin, forwarded origin, a listed origin, '
         'near-misses of each allowed origin (prefix, suffix, case, port, scheme, trailing slash, '
         'sub-domain), the request\'s own origin under an explicit origin / list / predicate, mixtures of the direct scheme / host with the forwarded host / scheme, foreign} x request kind {open, poll, post, OPTIONS, upgrade of a session, '
@@ -56,6 +56,15 @@ def ref_allowed(case):
         return ('set', set(LISTED), set())
     if cfg == 'callable':
         return ('pred',)
+    if case['host'] is None:
+        # a request without a Host header (HTTP/1.0 client, hand-built environ): its own origin
+        # is unknown, so under the default policy no Origin is the request's own
+        opens = set()
+        if case.get('xfh') is not None:
+            for proto in (case.get('xfp') or case['scheme'], case['scheme']):
+                opens.add('%s://%s' % (proto.split(',')[0].strip(),
+                                       case['xfh'].split(',')[0].strip()))
+        return ('set', set(), opens)
     own = '%s://%s' % (case['scheme'], case['host'])
     allowed = {own}
     opens = set()
@@ -105,6 +114,8 @@ def case_st(draw):
     if draw(st.integers(0, 2)) == 0:
         case['xfh'] = draw(st.sampled_from(['public.example.org', 'public.example.org, inner',
                                             'public.example.org:444']))
+    if draw(st.integers(0, 7)) == 0:
+        case['host'] = None         # no Host header at all
     ref = ref_allowed(case)
     bases = sorted(ref[1]) if ref[0] == 'set' else ['http://x.ok.example'] if ref[0] == 'pred' \
         else ['http://anything.example']
@@ -113,7 +124,15 @@ def case_st(draw):
         choices += ['mixed', 'mixed', 'mixed']
     if cors in ('string', 'list', 'callable'):
         choices += ['own', 'own']
+    if case['host'] is None:
+        choices = ['absent', 'empty', 'foreign', 'foreign', 'hostless-guess'] + (
+            ['allowed', 'near'] if cors not in ('none',) else [])
     choice = draw(st.sampled_from(choices))
+    if choice == 'hostless-guess':
+        case['origin'] = draw(st.sampled_from(['http://localhost', 'http://', 'http://None',
+                                               'https://app.example.com']))
+        case['near'] = 'no-host-header'
+        return case
     if choice == 'own':
         # the request's own origin (direct or as forwarded): allowed by default, but with an
         # explicit origin, list or predicate only that decides
@@ -162,7 +181,7 @@ def mutate(b, m):
 
 
 def headers_of(case, with_origin=True):
-    h = [('Host', case['host'])]
+    h = [('Host', case['host'])] if case['host'] is not None else []
     if case.get('xfp') is not None:
         h.append(('X-Forwarded-Proto', case['xfp']))
     if case.get('xfh') is not None:
@@ -296,9 +315,9 @@ def check_case(case, ctx=None):
                         'with Origin: %r; without: %r' % (obs.get('ptypes'), twin.get('ptypes')),
                         rep)
     if ctx:
-        nt = bool(case.get('near')) or case.get('xfp') is not None or case.get('xfh') is not None \
+        nt = bool(case.get('near')) or case['host'] is None or case.get('xfp') is not None or case.get('xfh') is not None \
             or case['cors'] in ('callable', 'list')
-        ctx.case(rep, nt, [impl, 'origin-' + status, 'cors-' + case['cors'], 'kind-' + case['kind'],
+        ctx.case(rep, nt, [impl, 'origin-' + status] + (['no-host-header'] if case['host'] is None else []) + [ 'cors-' + case['cors'], 'kind-' + case['kind'],
                            'status-%s' % obs['status']])
 
 
